@@ -119,6 +119,13 @@ def check_wellformed(name, g, chrom_lens):
                                                                   "chr_len": L}))
             if i and s <= ex[i - 1][1]:
                 v.append(("C03:exons-overlap", {"file": name, "transcript": tid, "exons": ex[i - 1:i + 1]}))
+        # exon_number, where given, numbers the exons of the transcript 1..n (in 5'->3' order or by coordinate)
+        nums = [r["attrs"].get("exon_number") for r in t["exon_recs"]]
+        if nums and all(n is not None and str(n).isdigit() for n in nums):
+            by_pos = [int(r["attrs"]["exon_number"]) for r in sorted(t["exon_recs"], key=lambda r: r["start"])]
+            want = list(range(1, len(by_pos) + 1))
+            if by_pos != want and by_pos != want[::-1]:
+                v.append(("C03:exon-numbers-are-not-1-to-n", {"file": name, "transcript": tid, "exon_numbers": by_pos[:8]}))
         for rec in t["records"]:
             if (rec["start"], rec["end"]) != (ex[0][0], ex[-1][1]):
                 v.append(("C03:transcript-span-differs-from-exons",
